@@ -360,3 +360,28 @@ PROPS["C10"] = dict(
     assumptions=["clock values T0 and T0+1000 stand for arbitrary clocks"],
     budget_s=dict(quick=900, thorough=3300),
 )
+
+# ---------------------------------------------------------------- C18
+_TSAN_ENV = {"TSAN_OPTIONS": "log_path=tsan.log:exitcode=0:halt_on_error=0:report_signal_unsafe=0", "VF_TSAN_LOG": "tsan.log",
+             "UBSAN_OPTIONS": "exitcode=0", "ASAN_OPTIONS": "exitcode=0"}   # sanitizer common flags are shared: keep the exit code 0
+PROPS["C18"] = dict(
+    level="model_checking",
+    technique="preemption-bounded stateless exploration of thread interleavings of the real code under a cooperative scheduler (CHESS-style iterative context bounding); separate free-running ThreadSanitizer pass for unsynchronised accesses",
+    level_text=("2 threads (3 for HS256 in the thorough tier), each with its own builder and checker and a shared read-only keyring, "
+                "run generate + verify(own) + verify(bad) + verify(good) for HS256, EdDSA, RS256 and ES256 on both providers; the "
+                "threads are real pthreads serialised by engine/sched.c, with a scheduling point at every allocator call of libjwt "
+                "and jansson and every time() call (about 110 points per thread); every schedule with at most 1 preemption (quick) / "
+                "2 preemptions (thorough, HS256 and EdDSA) is executed and each thread's token and verdicts must equal its "
+                "sequential run.  Because the scheduler's hand-offs are happens-before edges, data races are looked for "
+                "separately: the same bodies free-running on 8 threads under ThreadSanitizer"),
+    level_note="scheduling points sit at allocator and clock seams only: a static touched strictly between two adjacent points is visible to the TSan pass only; weak-memory effects are not modelled",
+    rule=("states = schedules executed (each a complete execution of the real code); transitions = scheduling decisions taken; "
+          "evaluations = executions compared with the sequential results; schedules_with_real_alternation counts those in which "
+          "the threads actually alternated"),
+    runs=lambda tier: [dict(harness="conc", args=["--param", 0], case_timeout=900), dict(harness="conc", args=["--param", 1], case_timeout=900),
+                       dict(harness="conc", variant="tsan", args=["--param", 8], env=_TSAN_ENV, shards=2),
+                       dict(harness="conc", variant="tsan", args=["--param", 9], env=_TSAN_ENV, shards=2)],
+    bound=dict(quick="all schedules with <= 1 preemption, 2 threads, 4 algorithms x 2 providers", thorough="<= 2 preemptions for HS256 and EdDSA (2 threads); <= 1 for 3 threads and RS256/ES256"),
+    assumptions=["TSan cannot see races inside the uninstrumented OpenSSL/GnuTLS/jansson libraries"],
+    budget_s=dict(quick=900, thorough=3300),
+)
